@@ -137,8 +137,54 @@ def r_pure(ctx):
             ctx.violation(rid, "%s|%s" % (fi.qual, p), F, l, "%s uses %s: generated code can differ between processes" % (fi.qual, p))
 
 
+# Rust types able to hold every JSON instance the JSON validator accepts for the prelude name (RFC 8610 Appendix D as read by the
+# crate's README for JSON: tdate/uri/b64url are strings, time is a number). serde_json (de)serialises i128/u128 as plain numbers.
+TYPEMAP_ORACLE = {
+    "bool": (["bool"], "false / true"), "uint": (["u64", "u128"], "#0: 0 .. 2^64-1"), "unsigned": (["u64", "u128"], "uint / biguint; JSON has no bignum"),
+    "nint": (["i64", "i128"], "#1: -2^64 .. -1; a JSON validator instance is an i64"),
+    "int": (["i128"], "uint / nint: -2^64 .. 2^64-1 — i64 cannot hold 2^63 .. 2^64-1, which validate"),
+    "integer": (["i128"], "int / bigint: as int for JSON"),
+    "float": (["f64"], "float16-32 / float64"), "float16": (["f64", "f32"], "#7.25"), "float32": (["f64", "f32"], "#7.26"), "float64": (["f64"], "#7.27"),
+    "float16-32": (["f64", "f32"], "float16 / float32"), "float32-64": (["f64"], "float32 / float64"),
+    "tstr": (["String"], "#3"), "text": (["String"], "tstr"), "null": (["()", "Option<()>"], "nil"), "nil": (["()", "Option<()>"], "#7.22"),
+    "any": (["serde_json::Value"], "#"), "tdate": (["String"], "#6.0(tstr), a string in JSON"), "uri": (["String"], "#6.32(tstr), a string in JSON"),
+    "b64url": (["String"], "#6.33(tstr), a string in JSON"),
+    "time": (["f64", "serde_json::Number"], "#6.1(number): integers and floats validate — i64 cannot hold 1.5"),
+}
+
+
+def r_typemap(ctx):
+    rid = "C17.typemap"
+    ctx.rule(rid, "cddl_ident_to_rust_type maps every prelude name that has JSON instances to a Rust type able to hold each instance the JSON "
+                  "validator accepts for it (so that every validating instance deserialises): abstract evaluation of the mapping function "
+                  "against the value ranges of RFC 8610 Appendix D", floor=18)
+    f = ctx.facts
+    fi = f.fn(F, "cddl_ident_to_rust_type")
+
+    def on_call(kind, name, node, args, recv):
+        if kind == "fn" and name and name.split("::")[-1] == "to_pascal_case":
+            return ("str", "<PascalCase>")
+        return NotImplemented
+    for name, (ok, why) in sorted(TYPEMAP_ORACLE.items()):
+        it = Interp(env={"ident": ("str", name)}, on_call=on_call)
+        try:
+            try:
+                res = it.block(fi.node["body"])
+            except Return as r:
+                res = r.v
+        except Unknown as e:
+            ctx.incomplete_msg(rid, "%s: %s" % (name, e))
+            continue
+        got = res[1] if isinstance(res, tuple) and res[:1] == ("str",) else getattr(res, "s", None) or repr(res)
+        ctx.site(rid, name, F, fi.line, {"rust_type": got, "can_hold_all_instances": ok})
+        if got not in ok:
+            ctx.violation(rid, name, F, fi.line, "prelude type `%s` (%s) is generated as `%s`; a type that holds every validating JSON instance is one of %s"
+                          % (name, why, got, ok))
+
+
 def run(ctx):
     ctx.guarded("C17.keywords", r_keywords)
     ctx.guarded("C17.strvariant", r_strvariant)
     ctx.guarded("C17.names", r_names)
     ctx.guarded("C17.pure", r_pure)
+    ctx.guarded("C17.typemap", r_typemap)
